@@ -1,24 +1,18 @@
 import OZ.Drv.C20Util
-import OZ.Model.RegDocs
+import OZ.Model.RegDocsMon
 /-
 `docs ...` sub-driver of C20: the document manager (buckets of 50, index map, swap-and-pop).
 `docs fill a=<from> b=<to> u= h= ts=` performs `set_document` for the names from..to-1 as
 separate invocations and is `ok` iff all of them were accepted.
 -/
 namespace OZ.Drv.C20.Docs
-open OZ.Drv OZ.Drv.C20 OZ.RegDocs OZ.Reg
+open OZ.Drv OZ.Drv.C20 OZ.RegDocs OZ.RegDocs.Mon OZ.Reg
 
 structure M where
   s : State
   u : Nat
 
 def initM (ws : List String) : M := { s := init, u := (kvNat? ws "u").getD 0 }
-
-inductive Cmd where
-  | one (op : Op)
-  | fill (a b uri hash ts : Nat)
-  /-- quick tier's state injection: the state `set_document` leaves for the names 0..n-1 -/
-  | preload (n uri hash ts : Nat)
 
 def parseCmd (ws : List String) : Option Cmd :=
   match ws with
@@ -31,28 +25,8 @@ def parseCmd (ws : List String) : Option Cmd :=
     | _ => none
   | _ => none
 
-def cmdOps : Cmd → List Op
-  | .one op => [op]
-  | .fill a b u h ts => (List.range (b - a)).map (fun i => .set (a + i) u h ts)
-  | .preload n u h ts => (List.range n).map (fun i => .set i u h ts)
-
-def cmdNames : Cmd → List Nat
-  | .one (.set n _ _ _) => [n]
-  | .one (.remove n) => [n]
-  | .fill a b _ _ _ => [a, b - 1]
-  | .preload .. => []
-
-def dedupKeep (l : List Nat) : List Nat := l.foldl (fun acc x => if acc.contains x then acc else acc ++ [x]) []
-
-def probes (u : Nat) (c : Cmd) (n : Nat) : List Nat × List Nat :=
-  if u > 0 then (List.range u, List.range (u + 1))
-  else (dedupKeep (cmdNames c ++ [0, 1, 49, 50, 51, 4999, 5000]),
-        dedupKeep [0, 49, 50, 51, 99, 100, n - 2, n - 1, n])
-
 def showDoc (d : Doc) : String := s!"{d.uri}.{d.hash}.{d.ts}"
 def showEntry (e : Entry) : String := s!"{e.1}:{showDoc e.2}"
-
-def nBuckets (n : Nat) : Nat := if n = 0 then 0 else (n - 1) / BUCKET_SIZE + 1
 
 def showState (m : M) (c : Cmd) : String :=
   let s := m.s
@@ -80,24 +54,10 @@ def stepLine (m : M) (line : String) : M × String :=
     let m' := { m with s := s' }
     ((m', (if allOk then "ok " else "err ") ++ showState m' c))
 
-/-! ### monitor: the plain map name -> document -/
-
-structure Mon where
-  map : List (Nat × Doc)
-  u : Nat
+/-! ### monitor: parsing only; the checks are `OZ.RegDocs.Mon.checkCore` (OZ/Model/RegDocsMon.lean),
+proved sound in OZ/Props/C20eMon.lean -/
 
 def minit (ws : List String) : Mon := { map := [], u := (kvNat? ws "u").getD 0 }
-
-def lookup (g : Mon) (n : Nat) : Option Doc := (g.map.find? (fun e => e.1 == n)).map (·.2)
-
-def plainOne (g : Mon) (op : Op) : Except String Mon :=
-  match op with
-  | .set n u h ts =>
-    if u > 200 then .error "limit.set_document.uri"
-    else if (lookup g n).isSome then .ok { g with map := g.map.map (fun e => if e.1 == n then (n, ⟨u, h, ts⟩) else e) }
-    else if g.map.length ≥ 5000 then .error "limit.set_document.documents"
-    else .ok { g with map := g.map ++ [(n, ⟨u, h, ts⟩)] }
-  | .remove n => if (lookup g n).isSome then .ok { g with map := g.map.filter (fun e => e.1 ≠ n) } else .error "absent"
 
 def parseDoc (s : String) : Option Doc :=
   match s.splitOn "." with
@@ -117,43 +77,24 @@ def parseAt (s : String) : List (Nat × Option Nat) :=
     | [a, b] => do pure ((← a.toNat?), b.toNat?)
     | _ => none)
 
-def check (g : Mon) (opl obs : String) : Mon × Option String :=
+def parseObs (obs : String) : Obs :=
   let ws := words obs
-  let ok := ws.head? == some "ok"
+  let listS := kvS ws "list"
+  { ok := ws.head? == some "ok",
+    n := kvN ws "n",
+    sum := kvN ws "sum",
+    sq := kvN ws "sq",
+    full := if listS.startsWith "#" then none else some (parseG listS),
+    gp := parseG (kvS ws "g"),
+    atL := parseAt (kvS ws "at"),
+    bk := natList (kvS ws "bk") }
+
+def check (g : Mon) (opl obs : String) : Mon × Option String :=
   match parseCmd (words opl) with
   | none => (g, some s!"site=docs.parse bad op {opl}")
-  | some c =>
-    -- a `fill` commits the accepted prefix ops one by one
-    let (gP, allOk, firstWhy, nearLimit) := (cmdOps c).foldl (fun (acc : Mon × Bool × String × Bool) op =>
-      match plainOne acc.1 op with
-      | .ok g' => (g', acc.2.1, acc.2.2.1, acc.2.2.2 || (acc.1.map.length = 4999 ∧ g'.map.length = 5000))
-      | .error why => (acc.1, false, (if acc.2.1 then why else acc.2.2.1), acc.2.2.2)) (g, true, "", false)
-    let accept : Option String :=
-      if ok = allOk then none
-      else if ok then some (acceptedSite "docs" firstWhy)
-      else some (refusedSite "docs" (if nearLimit then "limit.set_document.documents"
-                                    else if (cmdOps c).any (fun o => match o with | .set _ u _ _ => u = 200 | _ => false)
-                                    then "limit.set_document.uri" else "valid"))
-    let g2 := gP
-    let n := kvN ws "n"
-    let listS := kvS ws "list"
-    let full : Option (List (Nat × Option Doc)) := if listS.startsWith "#" then none else some (parseG listS)
-    let gp := parseG (kvS ws "g")
-    let atL := parseAt (kvS ws "at")
-    let bk := natList (kvS ws "bk")
-    let names := g2.map.map (·.1)
-    let bkWant := (List.range (nBuckets n + 1)).map (fun b => min 50 (n - 50 * b))
-    let fail := firstFail [accept,
-      chk (n = g2.map.length) s!"site=docs.count get_document_count = {n} but the plain map has {g2.map.length} entries",
-      chk (kvN ws "sum" = sum1 names ∧ kvN ws "sq" = sumSq names) "site=docs.enumerates_once the buckets do not enumerate the plain map's names once each (sums differ)",
-      (match full with
-        | some l => chk (nodupB (l.map (·.1)) ∧ sameSet (l.map (·.1)) names ∧ l.all (fun e => e.2 == lookup g2 e.1))
-            s!"site=docs.enumerates_once the enumeration by index differs from the plain map"
-        | none => none),
-      chk (gp.all (fun (nm, d) => d == lookup g2 nm)) "site=docs.map get_document differs from the plain map",
-      chk (atL.all (fun (i, v) => (v.isSome == decide (i < n)) && (match v with | some nm => (lookup g2 nm).isSome | none => true)))
-        "site=docs.index get_document_by_index succeeds exactly below the count, and yields a stored name",
-      chk (bk = bkWant) s!"site=docs.buckets bucket lengths {bk} are not {bkWant}"]
-    (g2, fail)
+  | some c => checkCore g c (parseObs obs)
+
+/-- the monitor state type, as the dispatcher OZ/Drv/C20.lean names it -/
+abbrev MonT := OZ.RegDocs.Mon.Mon
 
 end OZ.Drv.C20.Docs
